@@ -1,6 +1,6 @@
 (* Driver for the extracted C16 model.  One case per input line.
      O <v312:0|1> <n>  then n groups of 7 ints: opc target block_target eaft idx next prev   (-1 = None)
-       -> "w<wf><anext_ok><plain> " followed by  "E<code>"  or
+       -> "w<wf><anext_ok><plain><merge_simple> " followed by  "E<code>"  or
           "B<bid>:<i>,<i>..;<bid>:.. |E<a>-<b>,.. |O<bid>,.. |R<i>-<t>,.. |P<bid>:<p>,<p>..;.."
           (E = edge set sorted, R = retargets (latest first, raw), P = compute_predecessors of the final graph)
      M <minor> <n>     then n groups of 4 ints: off opc arg preset
@@ -33,6 +33,7 @@ let () =
              eaft = opt (geti (b+3)); idx = n_of_int (geti (b+4)); next = opt (geti (b+5)); prev = opt (geti (b+6)) }) in
          Buffer.add_char buf 'w';
          Buffer.add_char buf (b2c (wf_opsb ops)); Buffer.add_char buf (b2c (anext_okb ops)); Buffer.add_char buf (b2c (plainb ops));
+         Buffer.add_char buf (b2c (merge_simpleb ops));
          Buffer.add_char buf ' ';
          (match compute_order v312 ops with
           | Err c -> Buffer.add_string buf ("E" ^ string_of_int (int_of_nat c))
